@@ -109,9 +109,9 @@ Qed.
 
 Lemma continue_auth_saves w n now r : saves_ok within anyA (continue_auth w n now r).
 Proof.
-  unfold continue_auth. cbn. split; [exact I|]. intros rp; destruct rp; try exact I.
+  unfold continue_auth. break_goal; [exact I|]. cbn. split; [exact I|]. intros rp; destruct rp; try exact I.
   break_goal; [exact I|]. apply saves_ok_bind; [apply authenticate_saves|].
-  intros [o|e]; [exact I|]. apply saves_ok_bind; [apply get_client_nosave|]. intros [c|]; exact I.
+  intros [o|e]; [exact I|]. apply saves_ok_bind; [apply get_client_nosave|]. intros [c|]; cbn; auto.
 Qed.
 
 Lemma push_auth_saves w n now r : saves_ok within anyA (push_auth w n now r).
